@@ -311,6 +311,105 @@ func c18BusyRoot(change string, dotu bool, P int) Scenario {
 	}}
 }
 
+// c18ReplacedByLink: a fid designates a directory; the directory is then replaced (by
+// the host, or by the client itself through other fids) by a symbolic link - to the
+// root, to '.', to '..', to a place outside. Walks from the stale fid, '..' first or
+// later, stay inside the export.
+func c18ReplacedByLink(dotu bool) Scenario {
+	name := fmt.Sprintf("fid on a directory that is replaced by a symbolic link dotu=%v", dotu)
+	return Scenario{Name: name, Run: func(rc *RunCtx) *Result {
+		res := &Result{Exhaustive: true}
+		env := c18Setup()
+		defer func() { os.RemoveAll(env.base) }()
+		seen := map[string]bool{}
+		fail := func(sig, msg string) {
+			if !seen[sig] && len(res.Findings) < 6 {
+				seen[sig] = true
+				res.Findings = append(res.Findings, Finding{Sig: "C18/" + sig, Msg: msg})
+			}
+		}
+		before := env.outsideState()
+		targets := []string{".", "..", "../..", env.root, filepath.Dir(env.root), "/", "dd", "../shallow", "../d/dd/toroot"}
+		walks := [][]string{{".."}, {"..", ".."}, {".", ".."}, {"..", "canary"}, {"canary"}, {"..", "..", "canary"}, {"dd", "..", ".."}}
+		for _, where := range [][]string{{"d"}, {"d", "dd"}} {
+			for _, tg := range targets {
+				for _, w := range walks {
+					if rc.Expired() {
+						res.Exhaustive = false
+						res.CapHit = "internal deadline"
+						return res
+					}
+					os.RemoveAll(filepath.Join(env.root, "d"))
+					os.MkdirAll(filepath.Join(env.root, "d", "dd"), 0o755)
+					os.Symlink(env.root, filepath.Join(env.root, "d", "dd", "toroot"))
+					var leak string
+					skipped := false
+					body := func() {
+						h := newUfsH(env.root, 8216, dotu)
+						cl := h.Connect()
+						ver := "9P2000"
+						if dotu {
+							ver = "9P2000.u"
+						}
+						cl.Version(8216, ver)
+						tag := uint16(1)
+						rpc := func(m *wire.Msg) *wire.Msg {
+							tag++
+							m.Tag = tag
+							r := cl.Rpc(m)
+							if l := env.leak(r); l != "" && leak == "" {
+								leak = fmt.Sprintf("%s -> %s", m, l)
+							}
+							return r
+						}
+						rpc(tattach(0, 0, wire.NOFID, "", uint32(os.Geteuid()), dotu))
+						rpc(twalk(0, 0, 1, where...))
+						// the host replaces the directory by a link
+						p := filepath.Join(env.root, filepath.Join(where...))
+						os.RemoveAll(p)
+						os.Symlink(tg, p)
+						// the property is about trees without symbolic links that leave them
+						if rp, err := filepath.EvalSymlinks(p); err != nil || (rp != env.root && !strings.HasPrefix(rp, env.root+"/")) {
+							os.Remove(p)
+							skipped = true
+							return
+						}
+						if r := rpc(twalk(0, 1, 2, w...)); r != nil && r.Type == wire.Rwalk && len(r.Wqid) == len(w) {
+							rpc(&wire.Msg{Type: wire.Tstat, Fid: 2})
+							rpc(twalk(0, 2, 3, "canary"))
+							if o := rpc(&wire.Msg{Type: wire.Topen, Fid: 2, Mode: 0}); o != nil && o.Type == wire.Ropen {
+								rpc(&wire.Msg{Type: wire.Tread, Fid: 2, Offset: 0, Count: 4096})
+							}
+							rpc(twalk(0, 2, 4))
+							rpc(&wire.Msg{Type: wire.Tcreate, Fid: 4, Name: "escaped", Perm: 0644, Mode: 1})
+						}
+					}
+					x := vs.Run(nil, body, vs.Options{Horizon: 100000000})
+					res.Evals++
+					if !skipped {
+						res.Nontrivial++
+					}
+					what := fmt.Sprintf("fid on %v, which the host then replaced by a symbolic link to %q, walked %v", where, tg, w)
+					if len(x.Panics) > 0 {
+						fail("panic/"+x.Panics[0].Frame, what+": panic "+x.Panics[0].Value)
+					}
+					if leak != "" {
+						fail("leak/replaced-by-link", what+": "+leak)
+					}
+					if after := env.outsideState(); after != before {
+						fail("outside-modified/replaced-by-link", what+" changed something outside the export:\n"+diffLines(before, after))
+						os.RemoveAll(env.base)
+						env = c18Setup()
+						before = env.outsideState()
+					}
+					os.Remove(filepath.Join(env.root, "escaped"))
+				}
+			}
+		}
+		return res
+	}}
+}
+
 // c18Check inspects a reply for anything that belongs to the outside.
 func (e *c18Env) leak(r *wire.Msg) string {
 	if r == nil {
@@ -704,6 +803,7 @@ func c18Scenarios(tier string) []Scenario {
 	out = append(out, c18PipelinedWalk(false, pw), c18PipelinedWalk(true, pw))
 	// PATH_MAX is 4096 on the host: every spelled length from well below to beyond it
 	out = append(out, c18LongPaths(false, 4060, 4082), c18LongPaths(true, 4083, 4104))
+	out = append(out, c18ReplacedByLink(false), c18ReplacedByLink(true))
 	bp := 1
 	if tier == "thorough" {
 		bp = 2
